@@ -798,6 +798,14 @@ class VInterp(sym.Interp):
                 return self.ev(n["args"][0]) if name == "or" else self.apply_closure(self._closure_arg(n), [] if rv.name == "None" else list(rv.args), n)
             if name == "ok":
                 return sym.Variant("Some", list(rv.args)) if rv.name == "Ok" else sym.Variant("None")
+            if name in ("take", "replace") and "option::Option" in (n.get("def") or ""):
+                # Option::take / Option::replace: the old value is returned, the place holds None / Some(new)
+                new_ = sym.Variant("None") if name == "take" else sym.Variant("Some", [self.deref(self.ev(n["args"][0]))])
+                tgt = n["recv"]
+                while isinstance(tgt, dict) and tgt.get("k") in ("Ref", "Paren", "DropTemps", "Use"):
+                    tgt = tgt.get("e")
+                self.assign(tgt, new_, n)
+                return rv
             if name in ("copied", "cloned", "as_ref", "as_mut", "take"):
                 return rv
             if name in ("iter", "into_iter"):
